@@ -792,6 +792,117 @@ pub fn execute_via_adapter(case: &Case) -> Record {
     }
 }
 
+type ValidationResult = Result<(http::request::Parts, Bytes, scratchstack_aws_signature::auth::SigV4AuthenticatorResponse), BoxError>;
+
+fn outcome_of(r: ValidationResult) -> Outcome {
+    match r {
+        Ok((parts, body, resp)) => Outcome::Ok(Box::new(OkOut {
+            parts: copy_parts(&parts.method, &parts.uri, parts.version, &parts.headers),
+            body: body.to_vec(),
+            principal: resp.principal().clone(),
+            session: resp.session_data().clone(),
+        })),
+        Err(e) => Outcome::Err(describe_error(e)),
+    }
+}
+
+/// Several validations in flight at once on one thread, each suspended at its provider and polled in turn; with `migrate`,
+/// every future is polled once here and then finished by another thread. Returns, per case, the outcome and the provider's
+/// event log (None when the request could not be built). Requirement sets are passed as a VecSignedHeaderRequirements.
+pub fn execute_interleaved(cases: &[Case], migrate: bool) -> Vec<Option<(Outcome, Vec<Ev>)>> {
+    type Fut = Pin<Box<dyn Future<Output = ValidationResult> + Send>>;
+    let mut slots: Vec<Option<(Fut, Arc<Mutex<Vec<Ev>>>)>> = Vec::new();
+    for case in cases {
+        let Ok(req) = build_request(&case.wire) else {
+            slots.push(None);
+            continue;
+        };
+        let prov = Prov::new(case.script.clone());
+        let log = prov.log.clone();
+        let cfg = case.cfg.clone();
+        let fut: Fut = Box::pin(async move {
+            let mut prov = prov;
+            let a: Vec<&str> = cfg.reqs.always.iter().map(|s| s.as_str()).collect();
+            let i: Vec<&str> = cfg.reqs.if_req.iter().map(|s| s.as_str()).collect();
+            let p: Vec<&str> = cfg.reqs.prefixes.iter().map(|s| s.as_str()).collect();
+            let reqs = VecSignedHeaderRequirements::new(&a, &i, &p);
+            let opts = SignatureOptions {
+                s3: cfg.s3,
+                url_encode_form: cfg.fold,
+            };
+            sigv4_validate_request(req, &cfg.region, &cfg.service, &mut prov, to_datetime(cfg.now), &reqs, opts).await
+        });
+        slots.push(Some((fut, log)));
+    }
+    fn poll_round(slots: &mut [Option<(Fut, Arc<Mutex<Vec<Ev>>>)>], done: &mut [Option<(Outcome, Vec<Ev>)>]) -> bool {
+        let waker = noop_waker();
+        let mut cx = Context::from_waker(&waker);
+        let mut pending = false;
+        for k in 0..slots.len() {
+            let Some((fut, log)) = slots[k].as_mut() else {
+                continue;
+            };
+            match catch_unwind(AssertUnwindSafe(|| fut.as_mut().poll(&mut cx))) {
+                Err(_) => {
+                    let (msg, loc) = take_panic();
+                    let ev = std::mem::take(&mut *log.lock().unwrap());
+                    done[k] = Some((
+                        Outcome::Panic {
+                            msg,
+                            loc,
+                        },
+                        ev,
+                    ));
+                    if let Some((f, _)) = slots[k].take() {
+                        std::mem::forget(f);
+                    }
+                }
+                Ok(Poll::Ready(v)) => {
+                    let ev = std::mem::take(&mut *log.lock().unwrap());
+                    done[k] = Some((outcome_of(v), ev));
+                    slots[k] = None;
+                }
+                Ok(Poll::Pending) => pending = true,
+            }
+        }
+        pending
+    }
+    let mut done: Vec<Option<(Outcome, Vec<Ev>)>> = (0..cases.len()).map(|_| None).collect();
+    let mut rounds = 0;
+    let mut pending = poll_round(&mut slots, &mut done);
+    if migrate && pending {
+        // the half-finished validations are handed to another thread, which finishes them
+        let (s2, d2) = std::thread::scope(|sc| {
+            sc.spawn(move || {
+                let mut slots = slots;
+                let mut done = done;
+                let mut rounds = 0;
+                while poll_round(&mut slots, &mut done) && rounds < POLL_BUDGET {
+                    rounds += 1;
+                }
+                (slots, done)
+            })
+            .join()
+            .expect("interleaving thread")
+        });
+        slots = s2;
+        done = d2;
+        pending = slots.iter().any(|s| s.is_some());
+    }
+    while pending && rounds < POLL_BUDGET {
+        pending = poll_round(&mut slots, &mut done);
+        rounds += 1;
+    }
+    for k in 0..slots.len() {
+        if let Some((f, log)) = slots[k].take() {
+            let ev = std::mem::take(&mut *log.lock().unwrap());
+            done[k] = Some((Outcome::Hung, ev));
+            drop(f);
+        }
+    }
+    done
+}
+
 /// Execute one case on a caller-owned provider (histories sharing one provider instance).
 pub fn execute_with(case: &Case, prov: &mut Prov) -> Record {
     let req = match build_request(&case.wire) {
